@@ -149,15 +149,38 @@ func runO3(c *core.Ctx) {
 	if fd := core.FuncDecl(astp, "Searcher", "getByPath"); fd != nil {
 		c.Analysed("ast.(Searcher).getByPath")
 		copyArm, valid, conc := false, false, false
+		rawArg := map[string]bool{} // variables passed as the text of the returned node
+		ast.Inspect(fd.Body, func(nd ast.Node) bool {
+			if call, ok := nd.(*ast.CallExpr); ok && len(call.Args) == 3 {
+				if o := p.Callee(call); o != nil && o.Name() == "newRawNode" {
+					if id, ok := ast.Unparen(call.Args[0]).(*ast.Ident); ok {
+						rawArg[id.Name] = true
+					}
+				}
+			}
+			return true
+		})
 		ast.Inspect(fd.Body, func(nd ast.Node) bool {
 			switch x := nd.(type) {
 			case *ast.IfStmt:
 				if se, ok := ast.Unparen(x.Cond).(*ast.SelectorExpr); ok && se.Sel.Name == "CopyReturn" {
-					// then-branch assigns raw from an expression containing an allocating conversion
+					// then-branch assigns the variable handed to newRawNode from an expression
+					// containing an allocating conversion (a copy of something else - the
+					// error's Src, F-70 - is not the copy of the located text)
 					ast.Inspect(x.Body, func(m ast.Node) bool {
-						if e, ok := m.(ast.Expr); ok && isAllocatingConv(p, e) {
-							copyArm = true
+						as, ok := m.(*ast.AssignStmt)
+						if !ok || len(as.Lhs) != 1 || len(as.Rhs) != 1 {
+							return true
 						}
+						if id, ok := as.Lhs[0].(*ast.Ident); !ok || !rawArg[id.Name] {
+							return true
+						}
+						ast.Inspect(as.Rhs[0], func(r ast.Node) bool {
+							if e, ok := r.(ast.Expr); ok && isAllocatingConv(p, e) {
+								copyArm = true
+							}
+							return true
+						})
 						return true
 					})
 				}
